@@ -80,6 +80,25 @@ chk("C11",
     "separately and nondeterministic spare capacity on growing appends.",
     SMT + "; operation histories against abstract models")
 
+SCHED = "solver-based: bounded symbolic execution of the real code with goroutines under an explored scheduler (schedule choices and data decided in one DFS, z3 for the data)"
+
+chk("C10",
+    "Bounded exploration of all interleavings (preemption bound) of concurrent cache operations with symbolic keys; every interleaving is checked by a happens-before race detector "
+    "over the interpreter's memory accesses; value integrity of Get results and Stats bounds asserted in every snapshot.",
+    SCHED + "; happens-before race detection",
+    "Full linearizability checking of Get results is not built (see outside_bound).")
+
+chk("C17",
+    "Bounded exploration of all interleavings (preemption bound) of concurrent OnceConstructor.Get calls with symbolic keys (incl. a gate variant in which one construction blocks) "
+    "and of ChanSemaphore clients with a canceller; exactly-once construction, single result, non-blocking of other keys (deadlock detection), holder bound, error-on-done and non-blocking Release asserted.",
+    SCHED)
+
+chk("C18",
+    "Bounded symbolic execution of SignalHandler.Handle over all outcome vectors (nil/error/panic) and signal sequences, and of RefreshWorker under an injected clock over all interleavings "
+    "(preemption bound) of driver and worker: reverse-order complete shutdown, exit code, one Refresh per tick with the constructor's context, error hand-over, delays from the schedule, no refresh after Shutdown.",
+    SCHED,
+    "One known finding is recorded (a pending tick can be refreshed after Shutdown returned).")
+
 _pending = "check not built yet in this session; see DESIGN.md for the plan"
 for pid in ["C01","C02","C03","C04","C05","C07","C08","C09","C10","C11","C12","C13","C14","C15","C16","C17","C18"]:
     if pid not in CHECKS:
